@@ -7,4 +7,7 @@ def escape_html(data):
     data = data.replace('<', '&lt;')
     data = data.replace("'", '')
     data = data.replace('"', '')
+    # inside a JS string literal a backslash escapes what follows it
+    # (a value that ends with one swallows the closing quote)
+    data = data.replace('\\', '')
     return data
